@@ -139,6 +139,12 @@ def aniso_meshes(seed, n):
         if (k // 3) % 2 == 1 or (n <= 6 and k >= 3):          # the same surface wound the other way: every principal curvature changes sign
             t = np.asarray(t)[:, [0, 2, 1]]; nm += "-reversed"
         out.append(dict(v=np.asarray(v, float), t=np.asarray(t, np.int64), aniso=aniso, smooth=int(rng.integers(0, 4)), name=nm))
+    # as many triangles as vertices (a one-strip band, the surface of a tetrahedron): per-vertex and per-triangle arrays have the same length
+    bv, bt = gen.cylinder(int(rng.integers(6, 10)), 1)
+    out.append(dict(v=np.asarray(bv, float) * rng.uniform(0.7, 1.4, 3), t=np.asarray(bt, np.int64), aniso=0.0, smooth=1, name="band-nt=nv"))
+    out.append(dict(v=np.asarray(bv, float) @ gen.random_rotation(rng).T, t=np.asarray(bt, np.int64), aniso=(0.0, 2.0), smooth=0, name="band-nt=nv"))
+    tv, tt = gen.tetra_surface()
+    out.append(dict(v=np.asarray(tv, float) * np.array([1.0, 1.3, 0.8]), t=np.asarray(tt, np.int64), aniso=0.0, smooth=0, name="tetra-nt=nv"))
     for h in (1e-6, 1e-7, 1e-8, 10.0 ** rng.uniform(-8, -5)):          # flat (sliver) triangles: one vertex almost on the opposite edge
         v, t = gen.sliver(rng, h)
         out.append(dict(v=v, t=t, aniso=0.0 if h in (1e-6, 1e-8) else (0.0, 3.0), smooth=int(rng.integers(0, 3)), name="sliver"))
